@@ -1247,10 +1247,12 @@ func (tc *TableCheck) Compare(leaves []Leaf) (mism []Mismatch, rows int, errs []
 				rows++
 				var exp string
 				ok := false
+				lr := l.resolvedWith(val)
 				if tc.Judge != nil {
-					ok, exp, obs = tc.Judge(val, l)
+					ok, exp, obs = tc.Judge(val, lr)
 				} else {
 					exp = tc.Expected(val)
+					obs = tc.Observed(lr)
 					ok = exp == obs
 				}
 				if !ok {
@@ -1279,6 +1281,36 @@ func (tc *TableCheck) Compare(leaves []Leaf) (mism []Mismatch, rows int, errs []
 		rec(0, base)
 	}
 	return
+}
+
+// resolvedWith substitutes lazy sources whose key has a value in val.
+func (l *Leaf) resolvedWith(val map[string]constant.Value) *Leaf {
+	sub := func(a AV) AV {
+		if a.K == avLazy {
+			if v, ok := val[a.Key]; ok {
+				return AV{K: avConst, C: v, T: a.T, Origin: a.Origin}
+			}
+		}
+		return a
+	}
+	n := *l
+	n.Returns = nil
+	for _, r := range l.Returns {
+		n.Returns = append(n.Returns, sub(r))
+	}
+	n.Mem = map[string]AV{}
+	for k, v := range l.Mem {
+		n.Mem[k] = sub(v)
+	}
+	n.Effects = nil
+	for _, e := range l.Effects {
+		ne := Effect{Name: e.Name, Pos: e.Pos}
+		for _, a := range e.Args {
+			ne.Args = append(ne.Args, sub(a))
+		}
+		n.Effects = append(n.Effects, ne)
+	}
+	return &n
 }
 
 // helpers for specifications
